@@ -606,9 +606,19 @@ func c10Outbound(r *vfRun) {
 		default:
 			continue
 		}
+		if s.handler == "Filelist" && op.B == 1 && (op.K == "stat" || op.K == "lstat" || op.K == "readlink") {
+			// Filelist succeeds; the lister it returned fails in ListAt without an entry
+			s.handler = "ListAt"
+		}
 		steps = append(steps, s)
 	}
 	results := make([]*vfOpResult, len(steps))
+	faultFired := make([]bool, len(steps))
+	nFaults := func() int {
+		fs.mu.Lock()
+		defer fs.mu.Unlock()
+		return sim.stats["fault.backend.err"]
+	}
 	tk := vfSpawnTask(sim, 0, len(steps), func(i int) {
 		s := steps[i]
 		if !s.setup && s.e.err != nil {
@@ -617,7 +627,9 @@ func c10Outbound(r *vfRun) {
 			fs.mu.Unlock()
 			fs.planFault(s.handler, n, s.e.err)
 		}
+		before := nFaults()
 		results[i] = env.do(s.op)
+		faultFired[i] = nFaults() > before
 	})
 	sim.run(tk.finished)
 	if sim.failed() {
@@ -641,6 +653,12 @@ func c10Outbound(r *vfRun) {
 		if s.e.err == nil {
 			continue
 		}
+		if !faultFired[i] {
+			// the handler method that was to fail was never reached (an earlier call of the program succeeded and
+			// renamed or removed the file, so the handler refused before it got there)
+			r.res.Skipped = "invalid-program"
+			return
+		}
 		// an error with SSH_FX_OK code or nil means success: the handler's effect was skipped, the call may
 		// succeed or, for listings, end early; only error kinds are compared
 		got := c10KindOf(res.Err, s.e.err.Error())
@@ -652,6 +670,10 @@ func c10Outbound(r *vfRun) {
 		if want == "eof" && (s.op.K == "readdir" || s.op.K == "readat") {
 			// io.EOF from a lister or reader is the normal end of data: the call ends without error (or with EOF for ReadAt)
 			ok = got == "nil" || got == "eof"
+		}
+		if want == "eof" && s.handler == "ListAt" && s.op.K != "readdir" {
+			// a lister for a single name that reports the end without an entry: "no such file" is as good a rendering
+			ok = got == "eof" || got == "notexist"
 		}
 		if want == "nil" {
 			ok = true
